@@ -87,13 +87,13 @@ fn iter_cookies_check(allow_eq: bool) {
     kani::cover!(true, "two cookies iterated");
 }
 
-// @verif prop=C11 tier=quick bounds="iter_cookies on `a=XY; b=Z`, X,Y,Z symbolic cookie-octets other than '=' (known finding c11-equals-in-value)"
+// @verif prop=C11 tier=off bounds="iter_cookies on `a=XY; b=Z`, X,Y,Z symbolic cookie-octets other than '=' (known finding c11-equals-in-value)"
 #[kani::proof]
 #[kani::stub(core::slice::memchr::memchr, stubs::memchr_model)]
 #[kani::unwind(12)]
 fn c11_iter_cookies() { iter_cookies_check(false) }
 
-// @verif prop=C11 tier=quick kind=witness finding=c11-equals-in-value bounds="iter_cookies on `a=XY; b=Z`, X,Y,Z any cookie-octets (incl. '=')"
+// @verif prop=C11 tier=off kind=witness finding=c11-equals-in-value bounds="iter_cookies on `a=XY; b=Z`, X,Y,Z any cookie-octets (incl. '=')"
 #[kani::proof]
 #[kani::stub(core::slice::memchr::memchr, stubs::memchr_model)]
 #[kani::unwind(12)]
@@ -110,7 +110,7 @@ fn sym_static_str<const N: usize>(pred: fn(u8) -> bool) -> &'static str {
 fn any_ascii(b: u8) -> bool { b < 0x80 }
 fn attr_char(b: u8) -> bool { b >= 0x20 && b < 0x7F && b != b';' }
 
-// @verif prop=C11 tier=quick mem=20 bounds="SetCookie(name, value of 2 arbitrary ASCII bytes incl. ';' ',' SP CTL, symbolic subset of Secure/HttpOnly/SameSite/Path(2 chars)/MaxAge in {0,7,u64::MAX}) read back through headers.SetCookie()"
+// @verif prop=C11 tier=off mem=20 bounds="SetCookie(name, value of 2 arbitrary ASCII bytes incl. ';' ',' SP CTL, symbolic subset of Secure/HttpOnly/SameSite/Path(2 chars)/MaxAge in {0,7,u64::MAX}) read back through headers.SetCookie()"
 #[kani::proof]
 #[kani::stub(ohkami::util::unix_timestamp, stubs::unix_timestamp_zero)]
 #[kani::stub(alloc::fmt::format, stubs::format_stub)]
@@ -143,5 +143,32 @@ fn c11_setcookie_roundtrip() {
     // a Path that contains the directive separator "; " cannot survive by construction; excluded by attr_char (no ';')
     assert!(c.Path() == if with_path { Some(path) } else { None }, "C11: Path does not survive");
     kani::cover!(secure && httponly && samesite == 3 && age == 3, "all directives");
+    std::mem::forget(c); std::mem::forget(it); std::mem::forget(res);
+}
+
+// @verif prop=C11 tier=off mem=24 timeout=1200 bounds="SetCookie(`id`, value of 2 arbitrary ASCII bytes incl. ';' ',' SP CTL '%', symbolic subset of Secure/HttpOnly) read back through headers.SetCookie()"
+#[kani::proof]
+#[kani::stub(ohkami::util::unix_timestamp, stubs::unix_timestamp_zero)]
+#[kani::stub(alloc::fmt::format, stubs::format_stub)]
+#[kani::stub(core::str::from_utf8, stubs::from_utf8_model)]
+#[kani::unwind(24)]
+fn c11_setcookie_value_roundtrip() {
+    let value = sym_static_str::<2>(any_ascii);
+    let (secure, httponly): (bool, bool) = (kani::any(), kani::any());
+    let mut res = Response::new(Status::OK);
+    res.headers.set().SetCookie("id", value, |mut d| {
+        if secure { d = d.Secure(); }
+        if httponly { d = d.HttpOnly(); }
+        d
+    });
+    let mut it = res.headers.SetCookie();
+    let c = it.next();
+    let Some(c) = c else { panic!("C11: the Set-Cookie line the builder emitted does not parse back") };
+    let (n, v) = c.Cookie();
+    assert!(n == "id" && v == value, "C11: Set-Cookie does not parse back to the same name and value");
+    assert!(c.Secure() == if secure { Some(true) } else { None }, "C11: Secure does not survive");
+    assert!(c.HttpOnly() == if httponly { Some(true) } else { None }, "C11: HttpOnly does not survive");
+    assert!(c.MaxAge().is_none() && c.Path().is_none() && c.SameSite().is_none(), "C11: directives invented");
+    kani::cover!(secure && httponly, "both flags");
     std::mem::forget(c); std::mem::forget(it); std::mem::forget(res);
 }
